@@ -71,6 +71,10 @@ add("C20", "hypothesis-generated solve/save/load histories (round-trip oracle, e
     "Generated histories of 1-3 (precipitation) / 1-4 (diffusion) solve calls with saves after a random subset of calls (mid-run and final), PSD/profile recording on and off, 1-3 phases: the file loaded into a freshly built model of the same configuration reproduces all 16 histories, the step counter, the size distributions and grids exactly (PSD record through its own save/load pair; diffusion: time, profile and recorded history). Surrogates over an analytic binary backend: untrained getters equal the backend exactly, trained models reproduce their training outputs at the training inputs, a surrogate rebuilt from its JSON file predicts identically.",
     "toy/stub backends (the file format and the surrogate plumbing do not depend on the database); BinarySurrogate only (the multicomponent curvature surrogate is not exercised)")
 
+add("C12", "hypothesis-generated (T, g, supersaturation) tuples on the shipped Al-Zr database with round-trip (dG(x_alpha(g)) = g), monotonicity and method-agreement relations; generated precipitation runs with a per-step growth-sign invariant against the reported critical radius",
+    "Generated search over temperatures 500-900 K, Gibbs-Thomson energies 0..1e5 J/mol and supersaturations on Al-Zr/Al3Zr: the interfacial composition is the composition at which the driving force equals g (offset tolerance), monotone in g, sentinel monotone, sign change at the planar solvus, driving force increasing in composition, four methods agree in sign and three in value, curvature method in the limit. Generated toy binary/ternary runs (all sites, shapes, strain energy) and a share of Al-Zr / Ni-Al-Cr runs: after every step boundaries more than one class width above (below) the reported critical radius grow (shrink).",
+    "documented 1 J/mol offset; stoichiometric precipitate for value agreement; growth field read from model.growth at observer time")
+
 NOT_YET = {"C09": "only the composition-cache (HashTable) clause is built so far; thermodynamic query purity on the shipped databases is pending - claimed once complete"}
 
 ALL = ["C%02d" % i for i in range(1, 21)]
